@@ -8,8 +8,16 @@ import traceback
 import numpy as np
 
 from harness import circgen as cg, oracle_net as on
+from harness import circuit_view_corr as vc
 
-THEOREMS = []   # structure theorems (copy/pickle canonical form) come from the C09 model once integrated
+# copy / pickle / eliminate_1to1_forks over the edit model Model/Circuit.v (substitute / resolve: differential testing below)
+THEOREMS = ['C10_view_wf', 'C10_history_view_wf',
+            'C10_copy_view', 'C10_pickle_view', 'C10_pin_equiv_solution', 'C10_copy_solution', 'C10_pickle_solution',
+            'C10_copy_view_not_equal',
+            'C10_csol_iff_solution', 'C10_solution_iff_csol', 'C10_eliminate_function', 'C10_eliminate_solution_view',
+            'C10_sem_lut_buf',
+            'C10_eliminate_s_names', 'C10_eliminate_s_names_perm', 'C10_eliminate_state_order_refuted',
+            'C10_eliminate_order_kept', 'C10_state_first_b_sound', 'C10_order_kept_example', 'C10_example_solution']
 
 
 def s_names(c):
@@ -323,10 +331,76 @@ def substitute_random(rng):
     return desc, None
 
 
+def view_correspondence(ck):
+    """model view / s_names = implementation, on edit histories with eliminate / copy / pickle steps (harness/circuit_view_corr.py)"""
+    rng = random.Random(ck.seed * 7919 + 1010)
+    hs = vc.witness_histories(rng)
+    wok, wdetail = vc.witness_check(hs)
+    ck.obligation('the histories of the witness theorems C10_eliminate_state_order_refuted (s_nodes i,o,d1,d2 -> i,o,d2,d1) and '
+                  'C10_copy_view_not_equal (trailing None pin dropped by copy) show the same on the implementation', wok, 'oracle', wdetail)
+    for i in range(ck.scale(70, 400)):
+        h = vc.run_view_history(rng, rng.choice([8, 20, 40, 60] if not ck.thorough else [20, 60, 120]))
+        h['style'] = 'edit'
+        hs.append(h)
+    for i in range(ck.scale(70, 400)):
+        hs.append(vc.netlist_history(rng))
+    raised = [h for h in hs if h['failure']]
+    n_rem, n_sf, sf_bad = vc.order_kept_oracle(hs)
+    ck.obligation(f'oracle (C10_eliminate_order_kept on the implementation): eliminate_1to1_forks from a state in which every state element '
+                  f'precedes every removable fork keeps the names and order of s_nodes: {n_sf} such steps, {n_rem} of them removed forks',
+                  not sf_bad and n_rem > 0, 'oracle', str(sf_bad[:2]))
+    n_obs = n_tr = 0
+    for h in hs:
+        obs = [s for s in h['steps'] if s[1] is not None]
+        n_obs += len(obs)
+        n_tr += sum(1 for s in obs if s[0][0] in ('elim', 'copy', 'pickle'))
+        ck.count(len(obs), 'view:' + h['style'].split(':')[0])
+        for s in obs:
+            if s[0][0] in ('elim', 'copy', 'pickle'):
+                ck.dist['view-op:' + s[0][0]] = ck.dist.get('view-op:' + s[0][0], 0) + 1
+        ck.nontrivial(('v', h['style'], len(h['steps']), tuple(s[0][0] for s in h['steps'][-6:])))
+    parts = vc.chunks(hs, ck.scale(10, 40))
+    outs = ck.coq_eval_many('view', [vc.cases_file([hs[i]['steps'] for i in part]) for part in parts], jobs=10, timeout=1200)
+    bad, ran = [], True
+    for part, (ok, out) in zip(parts, outs):
+        pairs = vc.parse_pairs(out) if ok else None
+        if pairs is None:
+            ran = False
+            bad.append(('coq', out[-300:]))
+            continue
+        bad += [(part[ci], k) for ci, k in pairs]
+    ck.obligation(f'netlist view of the edit model = circgen.coq_netlist(real Circuit), s_names = [n.name for n in c.s_nodes], '
+                  f's_nodes(view) = [n.index for n in c.s_nodes], state_first_b = the same condition on the live objects, cinv_b, io_ok_b and the closed form of s_node_ids at {n_obs} observed states '
+                  f'of {len(hs)} histories ({n_tr} directly after eliminate_1to1_forks / copy / pickle)', ran and not bad and not raised,
+                  'correspondence', f'failing (history, step): {bad[:6]} {[h["failure"] for h in raised[:2]]}')
+    for h in raised[:2]:
+        ck.fail('view:raises', f'a well-formed edit history raises: {h["failure"]}',
+                {'component': 'kyupy.circuit', 'input': {'view_ops': [s[0] for s in h['steps']]}, 'actual': h['failure']})
+    first = [b for b in bad if b[0] != 'coq'][:1]
+    if first:
+        hi, k = first[0]
+        st = hs[hi]['steps']
+        ck.fail('view:model-disagrees', 'netlist view / s_nodes of the model Model/Circuit.v + Model/CircuitView.v and of the real Circuit disagree '
+                f'after step {k} ({ce_describe(st[k][0])})',
+                {'component': 'Circuit (nodes/lines/io_nodes/s_nodes) vs Model/CircuitView.v',
+                 'input': {'view_ops': [s[0] for s in st[:k + 1]], 'step': k, 'n_force': hs[hi].get('built', 0),
+                           'observe_from': max(0, hs[hi].get('built', 0) - 1)},
+                 'actual': {'names': st[k][1][1], 'indices': st[k][1][2]} if st[k][1] else None})
+    elif bad:
+        ck.fail('view:coq', 'the view correspondence cases did not evaluate', {'component': 'Model/CircuitViewCorr.v', 'input': {}, 'actual': str(bad[0][1])},
+                found_input=False)
+
+
+def ce_describe(op):
+    from harness import circuit_edit as ce
+    return ce.describe(op)
+
+
 def run(ck):
     from kyupy import techlib
     if THEOREMS:
         ck.prove('C10', THEOREMS)
+    view_correspondence(ck)
     rng = random.Random(ck.seed * 7919 + 10)
     fails = []
     for i in range(ck.scale(60, 1500)):
@@ -372,9 +446,16 @@ def run(ck):
     ck.rule('random circuits x random sequences of copy/pickle/eliminate; six implementation shapes (multi-output, output read internally, '
             'unread inputs, fan-out inputs) x random subsets of connected pins; every cell definition of the five libraries x all pins / '
             'random pin subsets x all (or 32 random) input-state combinations')
-    ck.trust('no Coq theorem is specific to this property yet (copy/pickle canonical-form theorems are being proved over the C09 circuit '
-             'model): decided by comparing LogicSim truth tables and s_nodes names/order before and after each transformation, with the '
-             'expected function of a library instance taken from an independent evaluation of its implementation circuit')
+    ck.rule('view correspondence: random well-formed edit histories (circuit_edit.propose, extra eliminate/copy/pickle steps, every step '
+            'observed) + random gate-level circuits of circgen (60% with permuted creation order) replayed as Node/Line/io ops followed by '
+            '1-4 eliminate/copy/pickle steps + the two witness histories')
+    ck.trust('copy / pickle / eliminate_1to1_forks: theorems over the Gallina transcription Model/Circuit.v (tied to circuit.py state by state '
+             'in C09) and its netlist view Model/CircuitView.v, which is tied to the real Circuit (circgen.coq_netlist, s_nodes names and '
+             'indices) by the view correspondence above; the id-based semantics csol / ciface of Model/CircuitSem.v are derived notions, proved '
+             'equivalent to NetlistSem.solution / iface_pos on the view (C10_csol_iff_solution, C10_solution_iff_csol), which C01 ties to LogicSim',
+             'substitute / resolve_tlib_cells: no theorem of this file; decided by comparing LogicSim truth tables and s_nodes names/order '
+             'before and after each transformation, with the expected function of a library instance taken from an independent evaluation '
+             'of its implementation circuit; the truth-table comparison is also kept for copy / pickle / eliminate')
     for key, desc, what in fails[:40]:
         ck.fail(key, what, {'component': 'circuit.Circuit transformations', 'input': desc, 'actual': what})
 
@@ -382,6 +463,21 @@ def run(ck):
 def replay(rp):
     from kyupy import techlib
     inp = rp['input']
+    if 'view_ops' in inp:
+        rng = random.Random(0)
+        h = vc.run_view_history(rng, 0, fixed_ops=inp['view_ops'], n_force=inp.get('n_force', 0), observe_from=inp.get('observe_from', 0))
+        if h['failure']:
+            return True
+        import os, subprocess
+        from vcheck import core
+        os.makedirs(core.CASES, exist_ok=True)
+        path = os.path.join(core.CASES, f'C10_replay_{os.getpid()}.v')
+        with open(path, 'w') as f:
+            f.write(vc.cases_file([h['steps']]))
+        ok, out = core.coqc_file(path, timeout=600)
+        core.Check._cleanup_case(path)
+        pairs = vc.parse_pairs(out) if ok else None
+        return pairs is None or bool(pairs)
     if inp.get('kind') == 'resolve':
         rng = random.Random(0)
         d, what = resolve_cell(inp['library'], getattr(techlib, inp['library']), inp['cell'], rng)
